@@ -438,13 +438,44 @@ Qed.
 
 (* ---- the face-by-face account equals the array pipeline ---- *)
 
-Lemma c15_rows_split_gen : forall faces pieces k, length faces = length pieces ->
-  flat_map (fun p : nat * (list Z * nat) => repeat (fst p) (snd (snd p)))
-           (combine (seq k (length faces)) (combine faces pieces)) = c15_blocks k pieces.
+Lemma c15_rows_split_gen m : forall faces pieces k, length faces = length pieces ->
+  flat_map (fun p : nat * (list Z * nat) =>
+              repeat (fst p) (if c15_crosses (c15_shell m (fst (snd p))) then snd (snd p) else 1))
+           (combine (seq k (length faces)) (combine faces pieces)) = c15_blocks k (c15_effective_pieces m faces pieces).
 Proof.
   induction faces as [|c faces IH]; intros [|p ps] k H; simpl in H; try discriminate; [reflexivity|].
+  unfold c15_effective_pieces. cbn [combine map fst snd]. fold (c15_effective_pieces m faces ps).
   rewrite c15_blocks_cons. cbn [length seq combine flat_map fst snd]. f_equal. apply IH. lia.
 Qed.
+
+Lemma c15_effective_pieces_length m faces pieces : length faces = length pieces ->
+  length (c15_effective_pieces m faces pieces) = length faces.
+Proof. intros H. unfold c15_effective_pieces. rewrite map_length, combine_length. lia. Qed.
+
+Lemma c15_effective_pieces_nth m faces pieces i : length faces = length pieces -> i < length faces ->
+  nth i (c15_effective_pieces m faces pieces) 0 =
+  if c15_crosses (c15_shell m (nth i faces [])) then nth i pieces 0 else 1.
+Proof.
+  intros H Hi. unfold c15_effective_pieces.
+  rewrite (nth_indep _ 0 ((fun p : list Z * nat => if c15_crosses (c15_shell m (fst p)) then snd p else 1) ([], 0)))
+    by (rewrite map_length, combine_length; lia).
+  rewrite (map_nth (fun p : list Z * nat => if c15_crosses (c15_shell m (fst p)) then snd p else 1)).
+  rewrite combine_nth by assumption. reflexivity.
+Qed.
+
+(* under 'split' a face that does not cross is never handed to the antimeridian correction: it
+   contributes exactly one polygon; a crossing face contributes its pieces *)
+Lemma c15_split_rows_per_face m faces pieces values i :
+  length faces = length pieces -> i < length faces ->
+  count_occ Nat.eq_dec (o_faces (c15_poly_full C15Split m faces None pieces values)) i =
+  if c15_crosses (c15_shell m (nth i faces [])) then nth i pieces 0 else 1.
+Proof.
+  intros H Hi. unfold c15_poly_full. cbn [c15_poly o_faces].
+  rewrite c15_split_map_count. apply c15_effective_pieces_nth; assumption.
+Qed.
+
+Lemma c15_split_site_current : c15_poly_split_only_crossing = true.
+Proof. reflexivity. Qed.
 
 Lemma c15_rows_ignore_gen : forall faces pieces k, length faces = length pieces ->
   flat_map (fun p : nat * (list Z * nat) => repeat (fst p) 1)
@@ -480,7 +511,7 @@ Proof.
     unfold c15_am_faces. rewrite c15_mem_where.
     rewrite (nth_indep _ false (c15_crosses (c15_shell m []))) by (rewrite map_length; lia).
     rewrite (map_nth (fun c => c15_crosses (c15_shell m c))). reflexivity.
-  - rewrite c15_rows_split_gen by assumption. reflexivity.
+  - rewrite (c15_rows_split_gen m) by assumption. reflexivity.
   - apply c15_rows_ignore_gen. assumption.
 Qed.
 
@@ -882,6 +913,12 @@ Proof.
   - intros c [<-|[<-|[]]]; split; simpl; try discriminate; lia.
   - vm_compute. repeat split; reflexivity.
 Qed.
+
+Example c15_split_site_nonvacuous :
+  c15_effective_pieces 4 [[170000000; -170000000; -160000000]; [10000000; 20000000; 15000000; 12000000]] [2%nat; 3%nat] = [2%nat; 1%nat] /\
+  o_faces (c15_poly_full C15Split 4 [[170000000; -170000000; -160000000]; [10000000; 20000000; 15000000; 12000000]] None [2%nat; 3%nat] [7; 8])
+    = [0%nat; 0%nat; 1%nat].
+Proof. vm_compute. split; reflexivity. Qed.
 
 Example c15_cache_nonvacuous :
   fst (fst (c15_call c15_sp_line (c15_run c15_sp_line c15_init [c15_mk 1 7 true]) (c15_mk 1 0 true))) = [1; 0] /\
